@@ -149,6 +149,8 @@ def expand_four_sides(tokens, name, base_url):
     # Make sure we have 4 tokens.
     if len(tokens) == 1:
         tokens *= 4
+    elif any(get_keyword(token) in ('inherit', 'initial') for token in tokens):
+        raise InvalidValues('inherit and initial must be the only component')
     elif len(tokens) == 2:
         tokens *= 2  # (bottom, left) defaults to (top, right)
     elif len(tokens) == 3:
@@ -785,6 +787,9 @@ def expand_flex(tokens, name):
                     continue
             else:
                 raise InvalidValues
+        if basis_found and basis not in (tokens[0], tokens[-1]):
+            # Flex factors must be next to each other.
+            raise InvalidValues
         line, column = tokens[0].source_line, tokens[0].source_column
         int_grow = int(grow) if float(grow).is_integer() else None
         int_shrink = int(shrink) if float(shrink).is_integer() else None
